@@ -370,7 +370,7 @@ def _cases_for(ctx, e, deep):
             if e.family == "multidomainnet":
                 sizes = [s for s in sizes if (s[0] + s[1]) % 3 == 0 or min(s) <= 6]      # budget (FFT in every conv): every third diagonal
         else:
-            sizes = _size_sample(rng, e, 80 if e.kind == "recon" else 60, lim=49)
+            sizes = _size_sample(rng, e, 400 if e.kind == "recon" else 150, lim=49)
     else:
         sizes = _size_sample(rng, e, 9 if e.kind in ("den2d", "gru") else 6)
     for i, (h, w) in enumerate(sizes):
